@@ -143,11 +143,35 @@ pub fn csr_from_sorted(rng: &mut Rng, log: &mut Log) {
             if rng.chance(1, 3) { w += 1; edges.push((s as u32, t as u32, w)); }
         }
     }
-    match rng.below(4) {
+    match rng.below(7) {
         0 if edges.len() >= 2 => { let i = rng.below(edges.len() - 1); edges.swap(i, i + 1); }
         1 if !edges.is_empty() => { let i = rng.below(edges.len()); let e = edges[i]; edges.insert(i, e); }
+        // any two positions swapped; one element moved anywhere; a sorted prefix followed by an out-of-place edge
+        2 if edges.len() >= 2 => { let (i, j) = (rng.below(edges.len()), rng.below(edges.len())); edges.swap(i, j); }
+        3 if edges.len() >= 2 => { let i = rng.below(edges.len()); let e = edges.remove(i); let j = rng.below(edges.len() + 1); edges.insert(j, e); }
+        4 => { w += 1; edges.push((rng.below(n + 1) as u32, rng.below(n) as u32, w)); }
         _ => {}
     }
+    csr_from_sorted_one(&edges, rng, log);
+}
+
+/// every list of at most three edges over three nodes: from_sorted_edges must accept exactly the strictly sorted ones
+pub fn csr_from_sorted_exhaustive(rng: &mut Rng, log: &mut Log) {
+    let pairs: Vec<(u32, u32)> = (0..3).flat_map(|a| (0..3).map(move |b| (a, b))).collect();
+    csr_from_sorted_one(&[], rng, log);
+    for &a in &pairs {
+        csr_from_sorted_one(&[(a.0, a.1, 1)], rng, log);
+        for &b in &pairs {
+            csr_from_sorted_one(&[(a.0, a.1, 1), (b.0, b.1, 2)], rng, log);
+            for &c in &pairs {
+                csr_from_sorted_one(&[(a.0, a.1, 1), (b.0, b.1, 2), (c.0, c.1, 3)], rng, log);
+            }
+        }
+    }
+}
+
+fn csr_from_sorted_one(edges: &[(u32, u32, i32)], rng: &mut Rng, log: &mut Log) {
+    let edges: Vec<(u32, u32, i32)> = edges.to_vec();
     let e = json!({"op":"from_sorted","edges":edges.iter().map(|x| json!([x.0, x.1, x.2])).collect::<Vec<_>>()});
     log.ev(json!({"op":"reset","kind":"csr","directed":true}));
     log.about_to(&e);
@@ -655,6 +679,7 @@ pub fn matrix_dir_obs<Null: Nullable<Wrapped = i32>, Ix: petgraph::graph::IndexT
 // ---------------------------------------------------------------------------------------- drivers
 pub fn gen_c05(seed: u64, segments: usize, len: usize, log: &mut Log) {
     let mut rng = Rng::new(seed);
+    csr_from_sorted_exhaustive(&mut rng, log);
     for i in 0..segments {
         match i % 6 {
             0 => csr_segment::<Directed>(&mut rng, log, len, false),
